@@ -272,7 +272,43 @@ def real_call(w, a, k):
         r = w(*a, **kw)
     except TypeError:
         return 'TypeError'
+    except RecursionError:
+        return 'BROKEN:RecursionError'
+    except Exception as e:
+        return 'BROKEN:' + type(e).__name__
     return tuple(sorted((n, repr(v)) for n, v in r.items()))
+
+
+class _Timeout(BaseException):
+    pass
+
+
+class time_limit(object):
+    """raise _Timeout in the main thread when the block runs longer than `seconds`
+    (a decorator application or a retrieval that loops for ever must become a
+    finding, not a hang)"""
+    def __init__(self, seconds):
+        self.seconds = seconds
+        self.armed = False
+
+    def _fire(self, signum, frame):
+        raise _Timeout()
+
+    def __enter__(self):
+        import signal
+        import threading
+        if threading.current_thread() is threading.main_thread():
+            self.old = signal.signal(signal.SIGALRM, self._fire)
+            signal.setitimer(signal.ITIMER_REAL, self.seconds)
+            self.armed = True
+        return self
+
+    def __exit__(self, *exc):
+        if self.armed:
+            import signal
+            signal.setitimer(signal.ITIMER_REAL, 0)
+            signal.signal(signal.SIGALRM, self.old)
+        return False
 
 
 def run_order(fi, mods):
@@ -289,6 +325,26 @@ def run_order(fi, mods):
 
 
 def order_case(fi, pool, shapes, idxs):
+    """one ordered application list on a fresh function, under a time guard"""
+    try:
+        with time_limit(4.0):
+            c = _order_case(fi, pool, shapes, idxs)
+    except _Timeout:
+        return {'adm': True, 'ans': (2, 0, 0), 'broken': 'does not terminate (stopped after 4 s)', 'str': '?'}
+    except RecursionError:
+        return {'adm': True, 'ans': (2, 0, 0), 'broken': 'raises RecursionError', 'str': '?'}
+    except Exception as e:
+        return {'adm': True, 'ans': (2, 0, 0), 'broken': 'raises %s(%s)' % (type(e).__name__, e), 'str': '?'}
+    if c['adm']:
+        bad = [i for i, r in enumerate(c['real']) if isinstance(r, str) and r.startswith('BROKEN:')]
+        if bad:
+            a, k = shapes[bad[0]]
+            c['broken'] = 'call args=%s kwargs=%s raises %s (neither a result nor TypeError)' % (
+                list(a), dict((NAMES[x], v) for x, v in k), c['real'][bad[0]][7:])
+    return c
+
+
+def _order_case(fi, pool, shapes, idxs):
     mods = [pool[i] for i in idxs]
     w = run_order(fi, mods)
     if w is None:
@@ -352,6 +408,12 @@ def describe_order(fi, mods):
 def decide_set(rep, fi, pool, idxs, results):
     """results: {perm: case}; direct decision of the property on the implementation"""
     adm = [(p, c) for p, c in results.items() if c['adm']]
+    for p, c in adm:
+        if c.get('broken'):
+            rep.violation('C18:order', 'admissible decoration is unusable: %s: %s (signature %s)' % (
+                describe_order(fi, [pool[i] for i in p]), c['broken'], c['str']),
+                {'part': 'order', 'func': fi, 'perms': [list(p)], 'pool': idxs_pool(pool, p)})
+    adm = [(p, c) for p, c in adm if 'sig' in c]
     for p, c in adm:
         if c.get('upg'):
             rep.violation('C18:annotate-lost', '%s after %s: signature %s' % (
@@ -997,7 +1059,7 @@ def sibling_histories(ctx, variant):
     out = []
     for L in range(1, (2 if ctx.quick else 3) + 1):
         out += list(itertools.product(range(n), repeat=L))
-    for _ in range(400 if ctx.quick else 6000):
+    for _ in range(250 if ctx.quick else 6000):
         out.append(tuple(rng.randrange(n) for _ in range(rng.choice([3, 4, 5, 6]))))
     return out
 
@@ -1051,6 +1113,137 @@ def _replay_sibling(r):
     return None
 
 
+# ----------------------------------------------------------------- part 4: objects made from an instance on the fly
+# Routes that never go through a class-level descriptor cache: a modifier (or a
+# stack of modifiers) applied to a bound method taken from the instance, and a
+# forwarding closure the instance created for itself.  Nothing is cached by
+# design, so these are the model's DWrap kind: every access is fresh, and after
+# drop + gc.collect() the instance must be gone (C18_reclaim_partial).
+TOPS = ['bm0', 'bm1', 'bmm0', 'bmm1', 'clos0', 'clos1', 'drop0', 'drop1']
+TOP_MODEL = {'bm0': 0, 'bm1': 1, 'bmm0': 0, 'bmm1': 1, 'clos0': 3, 'clos1': 4, 'drop0': 9, 'drop1': 10}
+T_EXPECT = {'bm': '(a, *args, b=1, **kwargs)', 'bmm': '(a, /, *args, b=1, **kwargs)', 'clos': '(x, y=2)'}
+
+
+def build_service():
+    class Service(object):
+        def __init__(self):
+            def callback(*args, **kwargs):
+                return self.handle(*args, **kwargs)
+            self.callback = callback
+
+        def handle(self, x, y=2):
+            return (self, 'handle', x, y)
+
+        def run(self, a, b=1, *args, **kwargs):
+            return (self, 'run', a, b, args, kwargs)
+    return Service
+
+
+def run_transient(hist):
+    Service = build_service()
+    inst = [Service(), Service()]
+    held = [[], []]
+    routes = [set(), set()]
+    codes = []
+    finds = []
+
+    def code(tag, ok, rec=True):
+        return tag * 1000 + (100 if ok else 0) + (10 if rec else 0)
+
+    for step, o in enumerate(hist):
+        name = TOPS[o]
+        s_ = int(name[-1])
+        kind = name[:-1]
+        if kind == 'drop':
+            wr = weakref.ref(inst[s_])
+            used = sorted(routes[s_])
+            inst[s_] = None
+            del held[s_][:]
+            gc.collect()
+            dead = wr() is None
+            if not dead:
+                key = 'C18:leak:%s' % ('+'.join(used) if used else 'untouched')
+                finds.append((key, 'step %d (%s): the instance is still alive after del + gc.collect(); it was only used '
+                              'through %s' % (step, name, ', '.join(
+                                  {'bm': "kwoargs('b')(inst.run)", 'bmm': "posoargs('a')(autokwoargs(inst.run))",
+                                   'clos': 'the forwarding closure inst.callback'}[u] for u in used) or 'nothing')))
+            codes.append(code(5, True, dead))
+            inst[s_] = Service()
+            routes[s_] = set()
+            continue
+        routes[s_].add(kind)
+        if kind == 'bm':
+            obj = modifiers.kwoargs('b')(inst[s_].run)
+            r = obj(1, 5, b=3)
+            ok = r[0] is inst[s_] and r[1:] == ('run', 1, 3, (5,), {})
+        elif kind == 'bmm':
+            obj = modifiers.posoargs('a')(modifiers.autokwoargs(inst[s_].run))
+            r = obj(1, 7)
+            ok = r[0] is inst[s_] and r[1:] == ('run', 1, 1, (7,), {})
+        else:
+            obj = inst[s_].callback
+            r = obj(1)
+            ok = r[0] is inst[s_] and r[1:] == ('handle', 1, 2)
+        if not ok:
+            finds.append(('C18:binding', 'step %d (%s): the call returned %r' % (step, name, r[1:])))
+        got = sig_str(obj)
+        again = sig_str(obj)
+        if got != T_EXPECT[kind] or again != got:
+            finds.append(('C18:history', 'step %d (%s): signature %s then %s, expected %s' % (
+                step, name, got, again, T_EXPECT[kind])))
+        if kind != 'clos':
+            held[s_].append(obj)
+        codes.append(code(2 if kind == 'clos' else 1, ok))
+        del obj, r
+    return codes, finds
+
+
+def part_transient(ctx, rep):
+    rng = ctx.rng('transient')
+    n = len(TOPS)
+    hs = []
+    for L in range(1, (3 if ctx.quick else 4) + 1):
+        hs += list(itertools.product(range(n), repeat=L))
+    for _ in range(150 if ctx.quick else 3000):
+        hs.append(tuple(rng.randrange(n) for _ in range(rng.choice([4, 5, 6]))))
+    cases = []
+    gc.collect()
+    gc.freeze()
+    try:
+        for h in hs:
+            codes, finds = run_transient(list(h))
+            cases.append((2, tuple(TOP_MODEL[TOPS[o]] for o in h), codes))
+            rep.distinct.add(('transient', h))
+            seen = set()
+            for key, what in finds:
+                if key in seen:
+                    continue
+                seen.add(key)
+                rep.violation(key, 'objects made from an instance on the fly, history %s: %s' % ([TOPS[o] for o in h], what),
+                              {'part': 'transient', 'history': list(h), 'key': key})
+    finally:
+        gc.unfreeze()
+    rep.coverage['transient_histories'] = len(hs)
+    cs = coqrun.coq_list(['(%d%%nat, %s, %s)' % (
+        k, coqrun.coq_list(['%d%%nat' % o for o in h]), coqrun.coq_list(['%d' % c for c in codes]))
+        for k, h, codes in cases])
+    pre = COQ_PRE + '\nDefinition HS : list (nat * list nat * list N) := %s.\n' % cs
+    bad = coqrun.parse_nat_list(coqrun.coq_eval(pre, ['bad_hist HS 0'], name='c18transient')[0])
+    for i in bad[:5]:
+        rep.corr_break('run_impl DWrap vs objects made from an instance on the fly',
+                       [TOPS[o] for o in hs[i]], 'model observations differ', cases[i][2])
+    return sum(len(h) for h in hs)
+
+
+def _replay_transient(r):
+    codes, finds = run_transient(list(r['history']))
+    for key, what in finds:
+        if r.get('key') is None or key == r['key']:
+            return '%s: objects made from an instance on the fly, history %s: %s' % (
+                key, [TOPS[o] for o in r['history']], what)
+    return None
+
+
 # ----------------------------------------------------------------- fixed scenarios
 def posoargs_self_scenario():
     """posoargs('self', 'a') on a method: decoration and class-level use work,
@@ -1081,7 +1274,8 @@ def run(ctx, rep):
     e1 = part_order(ctx, rep)
     e2 = part_history(ctx, rep)
     e3 = part_sibling(ctx, rep)
-    rep.evaluations = e1 + e2 + e3
+    e4 = part_transient(ctx, rep)
+    rep.evaluations = e1 + e2 + e3 + e4
     msg = posoargs_self_scenario()
     if msg:
         rep.violation('C18:posoargs-self-rebind', msg, {'part': 'posoargs-self'})
@@ -1100,6 +1294,10 @@ def _replay_order(r):
     for p in r['perms']:
         res.append(order_case(fi, pool, shapes, tuple(p)))
     out = []
+    for p, c in zip(r['perms'], res):
+        if c['adm'] and c.get('broken'):
+            out.append('%s: %s' % (describe_order(fi, [pool[i] for i in p]), c['broken']))
+    res = [c if ('sig' in c or not c['adm']) else {'adm': False} for c in res]
     for p, c in zip(r['perms'], res):
         if c['adm'] and c['sig'] != c['isig']:
             out.append('inspect/sigtools signatures differ for %s' % describe_order(fi, [pool[i] for i in p]))
@@ -1147,6 +1345,8 @@ def replay(ctx, data):
         return _replay_history(r)
     if r.get('part') == 'sibling':
         return _replay_sibling(r)
+    if r.get('part') == 'transient':
+        return _replay_transient(r)
     if r.get('part') == 'posoargs-self':
         return posoargs_self_scenario()
     return None
